@@ -132,6 +132,9 @@ def write_evidence(pid, tier, ctx, wall, violations, status, extra=None):
         "wall_s": round(wall, 3),
         "violations": violations,
     }
+    if mod is not None and getattr(mod, "EXHAUSTIVE", None):
+        ev["coverage"]["exhaustive"] = True
+        ev["coverage"]["exhaustive_over"] = mod.EXHAUSTIVE
     if extra:
         ev["coverage"].update(extra)
     os.makedirs(os.path.join(OUTROOT, "evidence"), exist_ok=True)
